@@ -1,9 +1,47 @@
 """C05 — Interface + buffered communication move each value to exactly its matches."""
 
 PID = "C05"
-CLAIM = False
-MANIFEST_TEXT = "under construction"
-MANIFEST_NOTE = "under construction"
+CLAIM = True
+MANIFEST_TEXT = ("21 Lean 4 theorems (lean/DuneVerif/Props/C05.lean) about a message-level model of Interface::build and "
+                 "BufferedCommunicator (two passes count/add of buildInterface with the attribute tests, strip, "
+                 "messageInformation_ layout with start in elements and size in bytes, gather into one buffer, per-neighbour "
+                 "Issend/Irecv, receive buffer written by arriving messages in any order, MPI_Waitany loop with the completion "
+                 "order as a parameter, scatter per message), on top of remote index lists defined as the sorted intersections "
+                 "of the published index sets (what C04 proves for RemoteIndices::rebuild).  For every process count, every "
+                 "decomposition with each global index at most once per set, one or two index sets per process (also mixed, "
+                 "self-communication), ignorePublic on/off, arbitrary source/target attribute predicates, arbitrary "
+                 "sizeof>0 and per-index component counts that agree on shared indices, arbitrary gather/scatter policies, all "
+                 "arrival and completion orders: interface_spec (send/receive list = exactly the own published entries with "
+                 "own attribute in S resp. T that have a published partner with attribute in T resp. S, ascending global "
+                 "index, each once; reserved sizes exactly filled), interface_neighbours (strip), interface_mirror (k-th sent "
+                 "= k-th received global index), slice_layout_disjoint_cover + recv_regions_disjoint (message = slice holding "
+                 "the values gathered for that neighbour; slices tile the buffer; receive regions disjoint and in bounds), "
+                 "forward_calls / forward_exactly_once (the scatter calls on a process are a permutation of the expected calls, "
+                 "which carry pairwise distinct (sender, global index, component) tags), order_irrelevant_calls, "
+                 "forward_copy_spec / forward_add_spec (single sender => target equals source, untouched entries unchanged; "
+                 "commutative associative add => old value plus all senders' values), backward_is_forward_swapped with "
+                 "backward_calls / backward_copy_spec / backward_add_spec, recv_posted_iff_send_posted (receive posted iff "
+                 "send posted, equal byte size, both directions: message matching, hence the Waitany loop gets its "
+                 "numberOfRealRecvRequests completions), reuse (a communicator carries no state between calls), datatype_calls / "
+                 "datatype_copy_spec (the index lists behind DatatypeCommunicator's MPI datatypes are the unstripped interface "
+                 "lists; moving send type into receive type neighbour by neighbour is exactly the expected calls).  The model is "
+                 "run against the real RemoteIndices::rebuild + Interface::build + BufferedCommunicator (and "
+                 "DatatypeCommunicator, Selection/UncachedSelection, all enumset.hh set classes) under mpirun -np 1..4 (quick) / "
+                 "1..8 (thorough) with PMPI-permuted MPI_Waitany order; the harness oracle recomputes interface lists, the "
+                 "multiset of scatter calls seen by a recording policy and the final container contents from the property's "
+                 "definition.")
+MANIFEST_NOTE = ("Trusted: Lean kernel (+propext/Classical.choice/Quot.sound), the hand-written model's fidelity "
+                 "(differential runs only, bounded: P<=8, <=12 global indices per case, <=3 components), harness oracle, "
+                 "g++/ASan/UBSan, OpenMPI (reliable, pairwise FIFO, a posted synchronous send and the matching posted receive "
+                 "complete).  The remote index lists are taken as specified (C04 proves that specification for rebuild); "
+                 "hypotheses: every global index at most once per index set and process, local indices distinct per set "
+                 "(generator), component counts equal on both sides of a shared index.  Copy policy with several senders to one "
+                 "entry is order dependent by nature: such entries are only required to hold one of the sent values "
+                 "(printed as *).  DatatypeCommunicator: the index lists behind the MPI datatypes are modelled and the final "
+                 "containers compared (copy, non-overlapping receives only); MPI_Type_create_hindexed, displacement "
+                 "arithmetic and persistent requests are exercised, not modelled.  Termination is proved at the message "
+                 "level (matching of posted operations), liveness of MPI itself is assumed; hangs of the real code are "
+                 "detected by a per-case alarm.")
 TECHNIQUE = "Lean 4 proof over a message-level model of Interface/BufferedCommunicator + differential correspondence under MPI with PMPI schedule steering and a definition-level oracle"
 TRANSLATORS = []
 HARNESS = dict(
@@ -11,26 +49,43 @@ HARNESS = dict(
     mpi=True,
     repo_sources=["dune/common/exceptions.cc", "dune/common/stdstreams.cc"],
 )
-RULE = "under construction"
-ASSUMPTIONS = []
-TRUSTED = []
+RULE = ("cases: random decompositions for P ranks: <=8 (thorough <=12) global indices, each placed on a random non-empty "
+        "subset of the ranks per index set with random or grid-like (one owner, others overlap/copy) attributes out of 4, "
+        "public flags none/all/mostly, local indices permuted with gaps; one index set, two index sets (redistribution, "
+        "self-communication) or mixed; ignorePublic on/off; source/target attribute sets as masks realised by every "
+        "enumset.hh class, classical owner->overlap patterns, symmetric, asymmetric, empty, all, or aimed at a shared pair; "
+        "payload long / FieldVector<long,3> (SizeOne) / VariableSize policy with 1..3 components per index; copy or add "
+        "recording policy; BufferedCommunicator (build<Data>(interface) or build(source,target,interface); one or two "
+        "containers) or DatatypeCommunicator; 1-3 forward/backward rounds on one communicator; MPI_Waitany order permuted; "
+        "distinct = distinct op lines; non-trivial = some interface list is non-empty")
+ASSUMPTIONS = [
+    "the Lean model lean/DuneVerif/Model/C05.lean is hand-written; its fidelity to interface.hh/communicator.hh rests on this differential run (P <= 8)",
+    "remote index lists are defined as the specification proved in C04 (rebuild_spec); the harness runs the real RemoteIndices::rebuild",
+    "MPI is trusted: reliable, pairwise FIFO; a posted MPI_Issend and the matching posted MPI_Irecv of the same size complete",
+    "theorems assume every global index at most once per index set and process (WF) and equal component counts on both sides of a shared index (SizesByGlobal)",
+    "copy policy with more than one sender to an entry: the property only requires one of the sent values (order dependent); checked as such",
+    "DatatypeCommunicator: theorems about the index lists behind the datatypes; MPI_Type_create_hindexed/persistent requests are covered by the correspondence run only (copy, cases without overlapping receive buffers)",
+]
+TRUSTED = ["g++/libstdc++, ASan/UBSan, OpenMPI", "harness/mpi_c05.cc (generator, executor, definition-level oracle, recording policy) + harness/pmpi_sched.cc",
+           "Driver/C05.lean parsing/printing and its open-entry bookkeeping (copy with several senders)"]
 
 
 def batches(tier, seed):
     res = []
     if tier == "quick":
-        plan = [(1, 300), (2, 600), (3, 600), (4, 600)]
+        plan = [(1, 400), (2, 900), (3, 900), (4, 900)]
         for (np, n) in plan:
             res.append(dict(args=["--seed", str(seed * 1000 + np), "--cases", str(n), "--tier", tier, "--case-timeout", "60"],
                             np=np, tag="np%d" % np, timeout=900))
-        res.append(dict(args=["--seed", str(seed * 1000 + 77), "--cases", "300", "--tier", tier, "--sched", "0",
+        # one batch with the PMPI scheduler switched off (plain MPI order)
+        res.append(dict(args=["--seed", str(seed * 1000 + 77), "--cases", "400", "--tier", tier, "--sched", "0",
                               "--case-timeout", "60"], np=3, tag="np3_nosched", timeout=900))
     else:
-        plan = [(1, 1500), (2, 4000), (3, 4000), (4, 4000), (5, 1500), (6, 1000), (7, 400), (8, 300)]
+        plan = [(1, 4000), (2, 14000), (3, 14000), (4, 14000), (5, 6000), (6, 4000), (7, 2000), (8, 1500)]
         for (np, n) in plan:
             res.append(dict(args=["--seed", str(seed * 1000 + 100 + np), "--cases", str(n), "--tier", tier,
                                   "--case-timeout", "90"], np=np, tag="np%d" % np, timeout=3000))
-        res.append(dict(args=["--seed", str(seed * 1000 + 177), "--cases", "1000", "--tier", tier, "--sched", "0"], np=4,
+        res.append(dict(args=["--seed", str(seed * 1000 + 177), "--cases", "4000", "--tier", tier, "--sched", "0"], np=4,
                         tag="np4_nosched", timeout=3000))
     return res
 
